@@ -357,6 +357,8 @@ theorem step_resInv {t : Topo} {s s' : State} {l : Label} (hi : ResInv s)
     · split at h
       · cases h
       split at h
+      · cases h; exact hi.sub (resSub_systemError t _ p)
+      split at h
       · cases h
         exact hi.sub (((ResSub.of_eq rfl rfl rfl rfl rfl rfl rfl rfl :
           ResSub s { s with downOpen := upd s.downOpen e false }).trans (resSub_shutdownNode t _ p)).trans
@@ -402,7 +404,10 @@ theorem step_resInv {t : Topo} {s s' : State} {l : Label} (hi : ResInv s)
     simp only [Bool.not_eq_true', Bool.not_eq_false, Bool.and_eq_true] at hg
     have hem := hg.2
     split at h
-    · split at h <;> cases h
+    · split at h
+      · cases h
+      split at h <;> cases h
+      · exact hi.sub (resSub_systemError t _ n)
       exact hi.sub ((ResSub.of_eq rfl rfl rfl rfl rfl rfl rfl rfl :
         ResSub s { s with upOpen := upd s.upOpen n false }).trans (resSub_shutdownNode t _ n))
     · have hi0 : ResInv { s with inbox := upd s.inbox n ‹List Msg› } :=
